@@ -445,3 +445,73 @@ func VH_C18_LedgerReadFaults() {
 	}
 	vhReach("ledger-read-faults-done")
 }
+
+// Callback faults during MUTABLE enumeration (its Next steps are keyed lookups
+// through the caller's comparator and hash-input provider): the k-th call of
+// either component fails -> the enumeration stops with an external error;
+// without a failure it yields every key. Maps of single elements over one or
+// two leaves and maps with a collision group.
+//
+//vh:prop C18 C13
+//vh:param leaves 2 2
+//vh:param perleaf 3 3
+func VH_C18_IterationFaults() {
+	vhSetThreshold(256)
+	storage := &vLogStorage{BasicSlabStorage: vhNewBasicStorage()}
+	addr := vhAddr(1)
+	b := &vDigesterBuilder{levels: 4}
+	var m *OrderedMap
+	var model []vhKV
+	if vhChoose("withgroup", 2) == 0 {
+		m, model = vhBuildMap(storage, addr, b, vhMapShape())
+	} else {
+		m, model, _ = vhBuildGroupMapDeep(storage, addr, b, vhChoose("nsingle", 2), 2, 0, vhChoose("external", 2) == 1, vhChoose("deep", 2) == 1)
+	}
+	n := len(model)
+	if n == 0 {
+		return
+	}
+	storage.writes = 0
+	calls, failAt := 0, 0
+	hipCalls, hipFailAt := 0, 0
+	cmp := func(s SlabStorage, v Value, st Storable) (bool, error) {
+		calls++
+		if calls == failAt {
+			return false, fmt.Errorf("injected comparator failure")
+		}
+		return vhCompare(s, v, st)
+	}
+	hip := func(v Value, buf []byte) ([]byte, error) {
+		hipCalls++
+		if hipCalls == hipFailAt {
+			return nil, fmt.Errorf("injected hip failure")
+		}
+		return nil, nil
+	}
+	switch vhChoose("component", 3) {
+	case 0:
+		failAt = 1 + vhChoose("failat", n)
+	case 1:
+		hipFailAt = 1 + vhChoose("failat", n)
+	}
+	count := 0
+	var err error
+	switch vhChoose("flavour", 3) {
+	case 0:
+		err = m.Iterate(cmp, hip, func(k, v Value) (bool, error) { count++; return true, nil })
+	case 1:
+		err = m.IterateKeys(cmp, hip, func(k Value) (bool, error) { count++; return true, nil })
+	case 2:
+		err = m.IterateValues(cmp, hip, func(v Value) (bool, error) { count++; return true, nil })
+	}
+	injected := (failAt != 0 && calls >= failAt) || (hipFailAt != 0 && hipCalls >= hipFailAt)
+	if injected {
+		vhAssert(err != nil, "callback failure during mutable enumeration surfaces")
+		vhAssert(vhIsExternal(err), "callback failure during mutable enumeration is an external error")
+	} else {
+		vhAssert(err == nil, "mutable enumeration without a failing callback succeeds")
+		vhAssert(count == n, "mutable enumeration yields every key")
+	}
+	vhAssert(storage.writes == 0, "enumeration stores/removes nothing")
+	vhReach("iteration-faults-done")
+}
